@@ -18,7 +18,13 @@ Definition submitted := TaskFacts.submitted.
 
 (* the ledger: whatever the event, the tasks pending before it plus the ones it submits are, as a
    multiset, the tasks pending after it plus the ones it answered -- nothing is answered twice,
-   nothing is dropped *)
+   nothing is dropped.
+   [TaskFacts.fresh s ev]: the submitted ids are distinct and not pending in s; the event is
+   [admissible] (no restart of a process that holds tasks, no reserved id 0 for waitStable/transfer,
+   a changeConfig task with a non-zero id carries a configuration without membership actions) and
+   [enabled] (a leader event that submits a task is taken by a leader).  Each clause is justified by a
+   machine-checked counterexample (TaskFacts.cex_...), and TaskFacts.ex_history is a concrete history
+   of ten events, five tasks pending at once, that meets all of them. *)
 Theorem task_ledger :
   forall opt s ev o s', model_event opt s ev = Done (o, s') ->
     TaskFacts.ledger_ok s -> TaskFacts.fresh s ev ->
@@ -27,7 +33,12 @@ Theorem task_ledger :
 Proof. exact TaskFacts.task_ledger. Qed.
 Print Assumptions task_ledger.
 
-(* hence over any history no task id is ever answered twice *)
+(* hence over any history no task id is ever answered twice.
+   [TaskFacts.nrun_fresh s tr s']: a run of model_event steps, each [fresh] for the state it meets,
+   in which a task id is used for one task only (an id submitted by one event is not submitted again
+   by a later one).  [TaskFacts.answered tr]: the ids of all replies of the history, in order.
+   TaskFacts.run_ledger is the multiset form: pending at the start + submitted = answered + pending at
+   the end. *)
 Theorem answered_at_most_once :
   forall s tr s', TaskFacts.nrun_fresh s tr s' -> TaskFacts.ledger_ok s -> pending s = [] ->
     NoDup (TaskFacts.answered tr ++ pending s').
@@ -42,3 +53,16 @@ Theorem release_leaves_nothing_pending :
     (st_closed s = true -> forall t r, In (t, r) (lo_replies out) -> r = RpServerClosed \/ r = RpNil).
 Proof. exact TaskFacts.release_leaves_nothing_pending. Qed.
 Print Assumptions release_leaves_nothing_pending.
+
+(* the hypotheses are satisfiable: a two-node cluster's node is bootstrapped, elected, accepts client,
+   transfer, snapshot and waitStable tasks and is shut down with all of them pending *)
+Example history_exists :
+  TaskFacts.nrun_fresh (fresh_node 1 1) TaskFacts.ex_trace TaskFacts.ex_end /\
+  TaskFacts.ledger_ok (fresh_node 1 1) /\ pending (fresh_node 1 1) = [] /\
+  TaskFacts.answered TaskFacts.ex_trace = [3; 9; 5; 6; 8; 7] /\ pending TaskFacts.ex_end = [] /\
+  st_closed TaskFacts.ex_end = true.
+Proof.
+  split; [exact TaskFacts.ex_history|]. split; [apply TaskFacts.ledger_ok_fresh_node|].
+  split; [reflexivity|]. exact TaskFacts.ex_answered.
+Qed.
+Print Assumptions history_exists.
